@@ -16,7 +16,7 @@ MANIFEST = {
             'action, executor results = the oracle\'s): sound (at every moment every row is a task of the semantic set and every '
             'completed row has the prescribed state and next_tasks), complete_at_quiescence (nothing pending and not PAUSED: the '
             'workflow state is the semantic verdict and the rows are EXACTLY the semantic set of (name, state, next_tasks)), '
-            'quiescent_is_final, hence outcome_schedule_independent (ANY two plain quiescent histories have equal outcomes) and '
+            'quiescent_is_final, executions_per_task (a join of the semantic set has exactly one execution), hence outcome_schedule_independent (ANY two plain quiescent histories have equal outcomes) and '
             'pause_resume_same_outcome (a quiescent history with pause / resume anywhere = any quiescent history never paused). '
             'The two exclusions the first version of these theorems needed were genuine defects, both repaired: the re-opened join '
             'keeping processed=True (acd6a089) and the stale start request (resume re-queues start_task(first_run=False) for an '
@@ -25,7 +25,10 @@ MANIFEST = {
             'schedules + pause/resume + cache eviction, compared with the semantics computed by the Lean driver - not with another '
             'run - and real rows sound on every prefix), stream `core` (every explored schedule equals the one Lean model after '
             'EVERY event), stream `engine` mode paired (programs with data flow: two schedules, +evict, +restart, equal outcomes), '
-            'stream `ctx`. Local theorems (C02): join_verdict_order_independent, verdict_order_independent, '
+            'stream `ctx`. The multiset reading (each task of a single-activation definition executed exactly once) is FALSE of the '
+            'code also for join: all (executions_once_full_fails: a join that failed early is re-opened by a late branch and its '
+            'successors run twice; real-engine replay corpus/C02/early_error_join_rerun.json, known finding); in the strict class it is '
+            'monitored by the sem stream, not proved. Local theorems (C02): join_verdict_order_independent, verdict_order_independent, '
             'merge_order_independent.',
     'note': 'The theorems are about Mistral.Engine (one event = one committed transaction; data flow / expressions / policies / '
             'with-items / sub-workflows outside): published variables and output are covered by merge_order_independent (C05) and '
